@@ -36,6 +36,7 @@ type solver struct {
 	timeout int // ms per query
 	nameSeq int64
 	scope   []string // assertions made inside the innermost open (push 1) of a check
+	depth   int      // number of open (push 1) scopes
 	hung    bool     // the watchdog killed the process because it ignored its own time limit
 }
 
@@ -81,6 +82,7 @@ func (s *solver) restart() error {
 	}
 	s.cmd, s.in, s.out = cmd, in, bufio.NewReaderSize(out, 1<<16)
 	s.hung = false
+	s.depth = 0
 	s.scope = s.scope[:0]
 	savedLog := s.log
 	s.log = nil
@@ -119,8 +121,10 @@ func (s *solver) send(line string) {
 	switch {
 	case line == "(push 1)":
 		s.scope = s.scope[:0]
+		s.depth++
 	case line == "(pop 1)":
 		s.scope = s.scope[:0]
+		s.depth--
 	case strings.HasPrefix(line, "(assert "):
 		s.scope = append(s.scope, line)
 	}
